@@ -64,6 +64,13 @@ pub fn fs_remove_file(path: &PathH) -> std::result::Result<(), IoErr> { unimplem
 #[verifier::external_body]
 pub fn sync_parent_directory(path: &PathH) -> std::result::Result<(), IoErr> { unimplemented!() }
 
+// drop(self.file.take())
+#[verifier::external_body]
+pub fn drop_file(f: &mut Option<FileH>)
+    ensures *final(f) is None,
+{
+    unimplemented!()
+}
 pub struct DestinationGuard {
     pub destination: PathH,
     pub temporary: PathH,
